@@ -118,6 +118,12 @@ def _check_evaluation(case):
     nm = np.array(case["names"], dtype=str)
     E, T = P.shape
     me = ModelEvaluation(predictions=P.copy(), observations=y.copy(), chain_ids=ch.copy(), sample_names=nm.copy())
+    # other evaluations (same chain labels on other columns, another number of columns) constructed afterwards and alive while `me` is
+    # asked for its metrics: an evaluation's numbers are its own
+    others = [  # noqa: F841
+        ModelEvaluation(predictions=P[:, ::-1].copy() * 0.5, observations=y.copy() + 0.25, chain_ids=ch[::-1].copy(), sample_names=nm.copy()),
+        ModelEvaluation(predictions=np.concatenate([P, P[:, :1] + 1.0], axis=1), observations=y.copy(), chain_ids=np.concatenate([ch[1:], ch[:1], ch[:1]]), sample_names=nm.copy()),
+    ]
     sq = [[(P[e, t] - y[e]) ** 2 for t in range(T)] for e in range(E)]
     mse = sum(sum(r) for r in sq) / (E * T)
     per_e = [sum(r) / T for r in sq]
